@@ -37,6 +37,19 @@ def program(rng, mapping, defines):
         tree.insert(rng.randrange(1, len(tree) + 1), ("data", "dw", [k, f"{k} + 1"]))
         if rng.random() < 0.5:
             tree.insert(rng.randrange(1, len(tree) + 1), ("op", f"lda.w #{k}"))
+        # uses that are evaluated while the source is expanded (conditions, loop bounds, := constants)
+        r = rng.random()
+        if r < 0.4:
+            tree.insert(rng.randrange(1, len(tree) + 1), ("if", k, [("data", "db", ["0xA1"])], [("data", "db", ["0xB2", "0xB3"])]))
+        elif r < 0.7:
+            tree.insert(rng.randrange(1, len(tree) + 1), ("for", "zz_i", "0", f"{k} & 3", [("data", "db", ["zz_i"])]))
+        else:
+            tree.insert(rng.randrange(1, len(tree) + 1), ("assign", f"zz_from_{k}", f"{k} + 2"))
+            tree.append(("data", "dl", [f"zz_from_{k}"]))
+    # the same label name in sibling scopes: each definition is listed in the symbol file
+    if rng.random() < 0.5:
+        tree.append(("block", [("label", "zz_same"), ("op", "nop")]))
+        tree.append(("block", [("op", "nop"), ("label", "zz_same"), ("data", "dw", ["zz_same"])]))
     if rng.random() < 0.3:
         tree.append(("org", rng.choice(ORG[mapping])))
         tree.append(("data", "db", ["1", "2", "3"]))
